@@ -21,12 +21,15 @@
 EXTENDS Naturals, Sequences, FiniteSets, TLC, SequencesExt
 
 Stmts == {"E", "Ref", "Mov", "Ok", "Err", "Ret", "Pan", "Aw", "In"}
-Kinds == {"sync", "async", "eop", "generic", "lifetime", "method", "amethod", "atrait"}
-IsAsync(k) == k \in {"async", "eop", "amethod", "atrait"}
+\* atrait_eop: an async-trait method with enter_on_poll = true (one span per poll, like eop)
+Kinds == {"sync", "async", "eop", "generic", "lifetime", "method", "amethod", "atrait", "atrait_eop"}
+IsAsync(k) == k \in {"async", "eop", "amethod", "atrait", "atrait_eop"}
+PerPoll(k) == k \in {"eop", "atrait_eop"}
 \* default_f / short_f: the annotated function is literally called `f` (the name macros derive the path
 \* from a nested helper function that has that name)
 Namings == {"default", "short", "custom", "default_f", "short_f"}
-PropKinds == {"none", "literal", "format", "escaped", "both"}
+\* closing: a value with an escaped closing brace and no opening one ("limit 100}}" means "limit 100}")
+PropKinds == {"none", "literal", "format", "escaped", "both", "closing"}
 
 \* meaning of a body: <<effects, outcome>>; statement i logs with its position
 RECURSIVE Run(_, _, _)
@@ -56,8 +59,8 @@ Inner(body) == Cardinality({i \in DOMAIN Reached(body) : Reached(body)[i][1] = "
 \* spans the annotated call records under a local parent: [n, kind, count, props]
 \* (the inner annotated function adds one local span per call reached)
 Spans(kind, naming, props, body) ==
-  [own |-> IF kind = "eop" THEN Polls(body) ELSE 1,
+  [own |-> IF PerPoll(kind) THEN Polls(body) ELSE 1,
    inner |-> Inner(body),
-   suffix |-> IsAsync(kind) /\ naming \in {"default", "default_f"} /\ kind # "atrait",
-   props |-> IF kind = "eop" THEN "none" ELSE props]
+   suffix |-> IsAsync(kind) /\ naming \in {"default", "default_f"} /\ kind \notin {"atrait", "atrait_eop"},
+   props |-> IF PerPoll(kind) THEN "none" ELSE props]
 =============================================================================
